@@ -3,7 +3,7 @@ Executor histories: the real Popen / NOOP executing component with real child
 processes over the threaded in-memory transport, hostile timing, and a
 per-uid event record extracted from the transport log (boundary events only).
 
-Reach: scripted endings (exit 0 / exit k / long runner), cancel requests at
+Reach: scripted endings (exit 0 / exit k / killed by a signal / long runner), cancel requests at
 every point of a task's life (before intake, during spawn - before and after
 the process exists -, while running, racing the exit), run-time limits racing
 the exit, launch failures at every step of `_handle_task`, several tasks per
@@ -30,7 +30,8 @@ import radical.pilot.agent.executing.noop  as m_noop       # noqa
 _real_sp    = m_popen.sp
 _real_sleep = time.sleep
 
-POISON_POINTS = ['find_launcher', 'exec_script', 'launch_script', 'popen']
+POISON_POINTS = ['find_launcher', 'exec_script', 'launch_script', 'popen',
+                 'handle_timeout']      # the last one: after the spawn
 TARGETS = {
     # name: (function, source pattern of the line to delay *before*)
     'cancel_after_poll'  : ('cancel_task',    'if exit_code is not None'),
@@ -186,10 +187,12 @@ def gen_case(rng, spawner='POPEN'):
     n = rng.randint(1, 6)
     tasks = list()
     for i in range(n):
-        ending = rng.choice(['ok', 'ok', 'exit', 'long', 'long', 'ok_slow'])
+        ending = rng.choice(['ok', 'ok', 'exit', 'long', 'long', 'ok_slow',
+                             'signal'])
         dur    = rng.choice([0, 0, 0.05, 0.1, 0.2, 0.3])
         spec   = {'uid': 't.%d' % i, 'ending': ending, 'dur': dur,
                   'code': rng.choice([1, 2, 3, 42]) if ending == 'exit' else 0,
+                  'sig': rng.choice(['TERM', 'KILL', 'HUP', 'SEGV']),
                   'cancel': None, 'cancel_at': None, 'timeout': 0.0,
                   'poison': None, 'bulk': rng.randint(0, 1)}
         r = rng.random()
@@ -210,6 +213,11 @@ def gen_case(rng, spawner='POPEN'):
                     spec['ending'], spec['dur'] = 'long', 0
             else:
                 spec['cancel'] = k
+                if k in ('in_spawn_before', 'in_spawn_after') and \
+                        rng.random() < 0.3:
+                    # the kill command of the launch method fails when the
+                    # late cancel check of the work routine uses it
+                    spec['cancel_fault'] = True
                 if k == 'running':
                     spec['cancel_at'] = rng.choice([0.02, 0.08, 0.2])
                 elif k == 'race_exit':
@@ -251,6 +259,7 @@ class ExecSim(object):
         self.pids  = dict()
         self.hits  = set()
         self.cancel_requested = dict()     # uid -> seq of the request
+        self.cancel_faults    = set()      # uids whose late-cancel kill raised
         self.notes = list()
 
         self.env = AgentEnv(workdir, {'nodes': 1, 'cores_per_node': 8,
@@ -328,6 +337,21 @@ class ExecSim(object):
                  lambda launcher, task, exec_path: task['uid'])
             wrap(comp, 'handle_timeout', 'handle_timeout',
                  lambda task: task['uid'])
+
+            # a fault in the cancel path, only where it is part of the work
+            # routine (the late cancel check of `_launch_task`): the launch
+            # method's kill command raises.  Calls from the control thread
+            # are passed through unharmed.
+            for lm in list(getattr(comp._rm, '_launchers', {}).values()):
+                def faulty(task, pid, _orig=lm.cancel_task):
+                    uid = task['uid']
+                    if sim.specs.get(uid, {}).get('cancel_fault') and \
+                            mt.current_thread().name == 'exec-work':
+                        sim.hits.add('poison:late_cancel_kill')
+                        sim.cancel_faults.add(uid)
+                        raise Poison('kill command failed for %s' % uid)
+                    return _orig(task, pid)
+                lm.cancel_task = faulty
         else:
             orig = comp._handle_task
             def handle(task):
@@ -366,6 +390,11 @@ class ExecSim(object):
                 args = ['-c', 'sleep %s; exit 0' % t['dur']]
             elif t['ending'] == 'exit':
                 args = ['-c', 'sleep %s; exit %d' % (t['dur'], t['code'])]
+            elif t['ending'] == 'signal':
+                # the whole process group of the task (launch script incl.)
+                # is killed by a signal RP did not send
+                args = ['-c', 'sleep %s; kill -%s 0; sleep 5; exit 0'
+                              % (t['dur'], t.get('sig', 'TERM'))]
             else:
                 args = ['-c', 'sleep 6; exit 0']
             exe = '/bin/sh'
